@@ -248,7 +248,11 @@ pub fn finish(ctx: &Ctx, verif_dir: &str, report: Report) -> i32 {
     };
     let mut unknown = 0usize;
     let mut known_seen = 0usize;
-    let mut viols = report.violations.clone();
+    // one violation per finding key: the smallest witness
+    let dedup = Violations::new();
+    dedup.extend(report.violations.clone());
+    let raw_reported = report.violations.len();
+    let mut viols = dedup.into_vec();
     viols.sort_by(|a, b| {
         (a.witness.to_string().len(), &a.key).cmp(&(b.witness.to_string().len(), &b.key))
     });
@@ -293,6 +297,7 @@ pub fn finish(ctx: &Ctx, verif_dir: &str, report: Report) -> i32 {
 
     let mut coverage = report.coverage.clone();
     coverage.insert("known_findings_seen".into(), json!(known_seen));
+    coverage.insert("violation_reports_before_dedup".into(), json!(raw_reported));
     if !viol_list.is_empty() {
         viol_list.truncate(60);
         coverage.insert("violation_keys".into(), Value::Array(viol_list));
